@@ -127,9 +127,10 @@ def check(ctx):
                 seen.add("la-ok")
                 al = p.calls(r"CompiledDfa::add_lookahead$")
                 ok = len(al) == 1 and al[0][3][2] == ("field", ("downcast", la[0][4], "Ok"), "0") and "Pattern::terminal_id" in S.fstr(al[0][3][1]) and "item@" in S.fstr(al[0][3][1])
-                ctx.ob("C04.f", "mode:lookahead-attached-to-its-own-pattern", ok, "add_lookahead(%s, %s)" % (S.vstr(al[0][3][1])[:60] if al else None, S.vstr(al[0][3][2])[:40] if al else None), cp.loc())
                 ctx.ob("C15.d", "mode:lookahead-attached-to-its-own-pattern", ok, "add_lookahead(%s, ..)" % (S.vstr(al[0][3][1])[:60] if al else None), cp.loc())
     ctx.ob("C15.d", "mode:all-outcomes", {"nfa-err", "la-err", "la-ok"} <= seen, "outcomes %s" % sorted(seen), cp.loc())
+    from . import kernel
+    kernel.lookahead_wiring(ctx, ("C15.d",))
     its = [M.call_name(t) for bb, t in cp.calls(r"Iterator>::(skip|take|filter|step_by|rev|skip_while|take_while)")]
     ctx.ob("C15.d", "mode:all-patterns-visited-for-lookaheads", not its, "iterator adapters: %s" % its, cp.loc())
 
@@ -225,3 +226,5 @@ def check(ctx):
                 why = (" [exception: %s]" % allowed[key]) if bad else ""
                 ctx.ob("C15.g", "result-handled:%s<-%s" % (M.short_name(fn.name), callee), True, "used by %s%s" % (sorted({u[1] or u[0] for u in uses})[:4], why), fn.loc(bb))
     ctx.floor("C15.g", "Result-returning calls on the build path", n, 20)
+    from .common import cache_foundation
+    cache_foundation(ctx)
